@@ -112,7 +112,9 @@ fn random_args(rng: &mut Rng) -> Vec<(String, String)> {
     let mut out = Vec::new();
     for _ in 0..n {
         let k = *rng.pick(&keys);
-        if seen.insert(k) {
+        // a key may come twice (`include=a,include=b`): the arguments are a list, every pair must arrive in order
+        // (half of the repeats are kept; no draw is added for a new key, so older seeds keep their other choices)
+        if seen.insert(k) || rng.chance(1, 2) {
             out.push((k.to_owned(), (*rng.pick(&vals)).to_owned()));
         }
     }
